@@ -58,6 +58,10 @@ func (ex *Exec) mapUpdate(st *State, fr *Frame, ins *ssa.MapUpdate) bool {
 	k := ex.eval(st, ins.Key)
 	v := ex.eval(st, ins.Value)
 	ex.emitMap(st, obj, "write")
+	if st.traceOn && st.isShared(obj) {
+		ex.publish(st, k)
+		ex.publish(st, v)
+	}
 	// decide which existing entry (if any) has this key
 	type cand struct {
 		i  int
